@@ -49,6 +49,7 @@ type Pkg struct {
 	Files  []PFile `json:"files"`
 	Rules  *string `json:"rules,omitempty"` // .terraformignore content
 	Commit string  `json:"commit,omitempty"`
+	BlankMeta bool `json:"blank_meta,omitempty"` // the fetcher returns a non-nil PackageMeta with all fields omitted
 	Msg    string  `json:"msg,omitempty"`
 	Mods   []Mod   `json:"mods"`
 }
